@@ -46,10 +46,17 @@ Proof.
     apply perm_trans with (x :: s); [now constructor|exact Pl].
 Qed.
 
-Lemma draw_pieces_ends n ends bs : map fst (draw_pieces n ends bs) = ends.
+Lemma draw_pieces_g_spec {P : Type} (piece : decoder P) ends bs :
+  match draw_pieces_g piece ends bs with
+  | ArbErr => exists bs', piece bs' = ArbErr
+  | ArbPanic => exists bs', piece bs' = ArbPanic
+  | ArbOk (l, _) => map fst l = ends /\ Forall (fun s => exists b b', piece b = ArbOk (snd s, b')) l
+  end.
 Proof.
-  revert bs. induction ends as [|e r IH]; intros bs; cbn; [reflexivity|].
-  destruct (get_n_f64 n bs) as [p bs']. cbn. now rewrite IH.
+  revert bs. induction ends as [|e r IH]; intros bs; cbn [draw_pieces_g]; [split; [reflexivity|constructor]|].
+  destruct (piece bs) as [| |[p bs']] eqn:Ep; [now exists bs|now exists bs|].
+  specialize (IH bs'). destruct (draw_pieces_g piece r bs') as [| |[l bs'']]; [exact IH|exact IH|].
+  destruct IH as [IH1 IH2]. split; [cbn; now rewrite IH1|]. constructor; [|exact IH2]. cbn. now exists bs, bs'.
 Qed.
 
 (* sortedness in the index form used by C02/C03/C12/C13 *)
@@ -70,16 +77,17 @@ Proof.
     + apply (IH rest H2 eq_refl i j); [lia|assumption|assumption].
 Qed.
 
-(* the main statement: for EVERY byte string *)
-Theorem arb_wellformed (n : nat) (bs : list Z) :
-  match arb_piecewise n bs with
+(* the main statement: for EVERY byte string and EVERY piece decoder *)
+Theorem arb_wellformed_g {P : Type} (piece : decoder P) (bs : list Z) :
+  match arb_piecewise_g piece bs with
   | ArbErr => True
-  | ArbPanic => False
-  | ArbOk segs => segs <> [] /\ Forall (fun s => is_normalb (fst s) = true) segs /\ sorted_ends segs /\
-                  Permutation (map of_bits (fst (get_vec_f64 bs))) (map fst segs)
+  | ArbPanic => exists bs', piece bs' = ArbPanic
+  | ArbOk (segs, _) => segs <> [] /\ Forall (fun s => is_normalb (fst s) = true) segs /\ sorted_ends segs /\
+                  Permutation (map of_bits (fst (get_vec_f64 bs))) (map fst segs) /\
+                  Forall (fun s => exists b b', piece b = ArbOk (snd s, b')) segs
   end.
 Proof.
-  unfold arb_piecewise. destruct (get_vec_f64 bs) as [ends rest]. cbn [fst].
+  unfold arb_piecewise_g. destruct (get_vec_f64 bs) as [ends rest]. cbn [fst].
   set (fe := map of_bits ends).
   destruct fe as [|e0 fe'] eqn:Efe; [exact I|]. cbn [orb].
   destruct (forallb is_normalb (e0 :: fe')) eqn:En; cbn [negb]; [|exact I].
@@ -89,13 +97,59 @@ Proof.
   assert (Hne : s <> []) by (intros ->; apply Permutation_sym, Permutation_nil in Ps; discriminate).
   assert (Hns : Forall (fun a => is_normalb a = true) s).
   { rewrite Forall_forall in *. intros a Ha. apply Hn. apply (Permutation_in _ (Permutation_sym Ps)). exact Ha. }
-  split; [|split; [|split]].
-  - intros E. apply (f_equal (map fst)) in E. rewrite draw_pieces_ends in E. cbn in E. congruence.
+  assert (D := draw_pieces_g_spec piece s rest).
+  destruct (draw_pieces_g piece s rest) as [| |[l r']]; [exact I|exact D|].
+  destruct D as [Dl Dp].
+  split; [|split; [|split; [|split]]].
+  - intros E. subst l. cbn in Dl. congruence.
   - rewrite Forall_forall. intros sg Hin. rewrite Forall_forall in Hns. apply Hns.
-    rewrite <- (draw_pieces_ends n s rest). now apply in_map.
+    rewrite <- Dl. now apply in_map.
   - apply strongly_sorted_ends.
     + rewrite Forall_forall. intros sg Hin. rewrite Forall_forall in Os. apply Os.
-      rewrite <- (draw_pieces_ends n s rest). now apply in_map.
-    + rewrite draw_pieces_ends. exact Ss.
-  - rewrite draw_pieces_ends. exact Ps.
+      rewrite <- Dl. now apply in_map.
+    + rewrite Dl. exact Ss.
+  - rewrite Dl. exact Ps.
+  - exact Dp.
+Qed.
+
+(* Piecewise<PolyK>: the piece decoder never fails and never panics *)
+Theorem arb_wellformed (n : nat) (bs : list Z) :
+  match arb_piecewise n bs with
+  | ArbErr => True
+  | ArbPanic => False
+  | ArbOk segs => segs <> [] /\ Forall (fun s => is_normalb (fst s) = true) segs /\ sorted_ends segs /\
+                  Permutation (map of_bits (fst (get_vec_f64 bs))) (map fst segs)
+  end.
+Proof.
+  unfold arb_piecewise. assert (W := arb_wellformed_g (poly_piece n) bs).
+  destruct (arb_piecewise_g (poly_piece n) bs) as [| |[segs r]]; cbn [drop_rest]; [exact I| |].
+  - destruct W as (b & Hb). discriminate.
+  - destruct W as (H1 & H2 & H3 & H4 & _). auto.
+Qed.
+
+Lemma arb_ok_inv (n : nat) bs segs : arb_piecewise n bs = ArbOk segs -> exists r, arb_piecewise_g (poly_piece n) bs = ArbOk (segs, r).
+Proof.
+  unfold arb_piecewise. destruct (arb_piecewise_g (poly_piece n) bs) as [| |[s r]]; cbn; try discriminate.
+  intros E. inversion E. now exists r.
+Qed.
+
+Definition wellformed {P : Type} (segs : list (F * P)) : Prop :=
+  segs <> [] /\ Forall (fun s => is_normalb (fst s) = true) segs /\ sorted_ends segs.
+
+(* Piecewise<Piecewise<PolyK>>: an inner failure fails the whole function; a returned value is well-formed at both levels *)
+Theorem arb_nested_wellformed (n : nat) (bs : list Z) :
+  match arb_nested n bs with
+  | ArbErr => True
+  | ArbPanic => False
+  | ArbOk segs => wellformed segs /\ Forall (fun s => wellformed (snd s)) segs
+  end.
+Proof.
+  unfold arb_nested. assert (W := arb_wellformed_g (arb_piecewise_g (poly_piece n)) bs).
+  destruct (arb_piecewise_g (arb_piecewise_g (poly_piece n)) bs) as [| |[segs r]]; cbn [drop_rest]; [exact I| |].
+  - destruct W as (b & Hb). assert (W2 := arb_wellformed_g (poly_piece n) b). rewrite Hb in W2.
+    destruct W2 as (b2 & Hb2). discriminate.
+  - destruct W as (H1 & H2 & H3 & _ & H5). split; [repeat split; assumption|].
+    eapply Forall_impl; [|exact H5]. intros sg (b & b' & Hb). cbn beta.
+    assert (W2 := arb_wellformed_g (poly_piece n) b). rewrite Hb in W2.
+    destruct W2 as (I1 & I2 & I3 & _). repeat split; assumption.
 Qed.
